@@ -64,7 +64,11 @@ def gen_world(rng, i, tier):
                 w["ep"] = rng.pick(["readConfig", "readConfigCb"])
                 # the parse options must not change which error is reported (JOIN_SAME_ENTRIES works on the
                 # entries after the file was read)
-                lw["read"]["opts"]["extra"] = rng.pick([[], [], ["JOIN_SAME_ENTRIES=1"], ["JOIN_SAME_ENTRIES=1"]])
+                lw["read"]["opts"]["extra"] = rng.pick([[], [], ["JOIN_SAME_ENTRIES=1"], ["JOIN_SAME_ENTRIES=1"], ["PYTHON_STYLE=1"]])
+                if lw["read"]["opts"]["extra"] == ["PYTHON_STYLE=1"]:
+                    # python style changes what an indented line is (always a continuation) but not what a section header
+                    # is: malformed HEADERS keep their codes wherever they stand, indented or not
+                    w["python"] = True
     # the caller's callback may itself read a configuration through the library (an allow-list) before it answers
     w["nested"] = rng.chance(0.25)
     w["repeat_under_budget"] = rng.chance(0.12)
@@ -79,7 +83,7 @@ def injection(world, pos):
     D, C = world["D"], world["C"]
     cls = grammar.dclass(D)
     kinds = ["missing_bracket", "missing_bracket", "text_after", "text_after", "empty_name", "empty_name", "bare_bracket"]
-    if cls == "NONBLANK":
+    if cls == "NONBLANK" and not world.get("python"):
         kinds.append("missing_delim")
         kinds.append("missing_delim")
     kind = r.pick(kinds)
@@ -93,7 +97,9 @@ def injection(world, pos):
         line = grammar.blanks(r, 0, 2) + "[]" + grammar.blanks(r, 0, 2)
     elif kind == "bare_bracket":
         line = grammar.blanks(r, 0, 2) + "[" + grammar.blanks(r, 0, 2)        # nothing but the opening bracket: no closing one
-    if kind != "missing_delim" and cls != "NONE" and r.chance(0.2):
+    if world.get("python"):
+        pass          # in python style a comment character behind text is part of the text: no trailing comments here
+    elif kind != "missing_delim" and cls != "NONE" and r.chance(0.2):
         line += grammar.blanks(r, 1, 2) + r.pick(C) + grammar.token(r, C + '"', 0, 6, inner_blank=True)     # a trailing comment does not heal the line
     elif kind != "missing_delim" and cls != "NONE" and len(C) >= 2 and r.chance(0.25):
         # ... nor does a comment that contains further comment characters (in any order) and a closing bracket
